@@ -1,6 +1,7 @@
 #!/bin/bash
 # tools_seeded.sh confirm <ID>   : confirm the three claims of a seeded change in its scratch worktree /tmp/mut/<ID>
 # tools_seeded.sh run <dir-with-patch.diff> <PROP> [tier] : apply the patch to /repo, run ./check PROP, undo
+#   (SEEDED_REPO / SEEDED_VERIF select another checkout of the repository / of this directory, for parallel work)
 set -u
 cmd=$1
 if [ "$cmd" = confirm ]; then
@@ -23,12 +24,15 @@ if [ "$cmd" = confirm ]; then
   cp $K/* $W/ ; rm -rf $K
 elif [ "$cmd" = run ]; then
   D=$(realpath $2); P=$3; T=${4:-quick}
-  cd /verif
-  [ -n "$(git -C /repo status --porcelain --untracked-files=no)" ] && { echo "/repo not clean"; exit 2; }
-  git -C /repo apply $D/patch.diff 2>/dev/null || git -C /repo apply $D/mutation.diff || { echo "patch does not apply"; exit 2; }
+  R=${SEEDED_REPO:-/repo}; V=${SEEDED_VERIF:-/verif}
+  cd $V
+  export VERIF_REPO=$R
+  [ -n "$(git -C $R status --porcelain --untracked-files=no)" ] && { echo "$R not clean"; exit 2; }
+  git -C $R apply $D/patch.diff 2>/dev/null || git -C $R apply $D/mutation.diff || { echo "patch does not apply"; exit 2; }
   ./check $P $T 2>&1 | grep -v "^WARNING" | cut -c1-400
   rc=${PIPESTATUS[0]}
-  git -C /repo checkout -- .
-  ./check --setup >/dev/null 2>&1   # rebuild the node from the restored tree (no stale mutated binary)
+  git -C $R checkout -- .
+  # rebuild the node from the restored tree (no stale mutated binary)
+  [ -z "${SEEDED_NO_RESTORE:-}" ] && ./check --setup >/dev/null 2>&1
   echo "exit=$rc"
 fi
